@@ -545,7 +545,13 @@ impl Run {
                 args["title"] = json!(title);
                 let funds_amt = args.get("funds").and_then(|x| x.as_u64()).unwrap_or(0);
                 let fdenom = args.get("fdenom").and_then(|x| x.as_str()).unwrap_or(DEP).to_string();
-                let funds: Vec<Coin> = if funds_amt > 0 { coins(funds_amt as u128, fdenom) } else { vec![] };
+                let mut funds: Vec<Coin> = if funds_amt > 0 { coins(funds_amt as u128, fdenom) } else { vec![] };
+                // (the deposit plus coins of another denomination in the same call)
+                let extra = args.get("extra").and_then(|x| x.as_u64()).unwrap_or(0);
+                if extra > 0 {
+                    funds.push(Coin::new(extra as u128, OTHER));
+                    funds.sort_by(|a, b| a.denom.cmp(&b.denom));
+                }
                 let sender = self.w.addr(&by);
                 let m = cw3_fixed_multisig::msg::ExecuteMsg::Propose { title, description: "d".into(), msgs, latest };
                 call(&mut self.w, |w| w.app.execute_contract(sender, ms.clone(), &m, &funds))
@@ -680,7 +686,8 @@ pub fn random_run(rng: &mut Rng, run_no: u64, len: usize, out: &mut Out) {
                 };
                 let funds = if run.dep_kind == "native" { match rng.below(6) { 0 => 0, 1 => dep_amt + 1, 2 => dep_amt.saturating_sub(1), _ => dep_amt } } else { 0 };
                 let fdenom = if run.dep_kind == "native" && rng.chance(1, 10) { OTHER } else { DEP };
-                json!({"act":"propose","by":who,"args":{"kind":kind,"latest":latest,"funds":funds,"fdenom":fdenom}})
+                let extra = if run.dep_kind == "native" && fdenom == DEP && rng.chance(1, 8) { rng.range(1, 3) } else { 0 };
+                json!({"act":"propose","by":who,"args":{"kind":kind,"latest":latest,"funds":funds,"fdenom":fdenom,"extra":extra}})
                 }
             }
             18..=49 => {
